@@ -130,6 +130,8 @@ def install_observers(g, obs, target_hi=None, target_lo=None):
             "self_obj": self,
             "site": sys._getframe(1).f_code.co_name,
             "self_residues": list(getattr(self, "_sx_residues", [])),
+            "mol_self_before": self._mol,
+            "mol_other_before": other._mol,
             "other_token": getattr(other, "_sx_token", Ref(None)).obj,
         }
         res = MolGen._sx_orig_attach(self, self_bond_idx, other, other_bond_idx, *args, **kwargs)
@@ -160,16 +162,19 @@ def install_observers(g, obs, target_hi=None, target_lo=None):
             c.discard_tentative()
             f = sys._getframe(2)
             if f.f_code.co_name == "generate_repeat_units_and_finalize" and len(res.bond_descriptors) > 0:
-                try:
-                    start = f.f_locals["starting_mol_weight"]
-                    target = f.f_locals["target_mol_weight"]
-                    from rdkit.Chem import Descriptors as _D
+                start = f.f_locals.get("starting_mol_weight")
+                target = f.f_locals.get("target_mol_weight")
+                from rdkit.Chem import Descriptors as _D
 
+                if start is None or target is None:
+                    return res
+                try:
                     m = _D.HeavyAtomMolWt(res.mol)
+                except Exception:
+                    m = None  # the code itself will meet this failure at its own sanitisation; the harness must not raise first
+                if m is not None:
                     bool(m - start > target)
                     c.begin_tentative()
-                except KeyError:
-                    pass
         return res
 
     MolGen.__init__ = init
